@@ -5,6 +5,11 @@ import json, subprocess
 HOOK_COMMITS = ["e830588", "a6f2056", "d667224"]
 
 CHECKS = {
+ "C01": dict(
+  technique="runtime monitors under hostile workloads: panic hook with overflow checks and debug assertions, child-process death and per-call watchdog with isolated re-run, differential poison probes against fresh instances; Miri stage in the thorough tier",
+  text="Exploration: ~2.5e6 (quick) / ~1e8 (thorough) hostile inputs: every truncation and (strided in quick) single-bit corruption of every packet of the four bundled captures and of synthesised connections, every (kind,length,position) TCP option encoding, IP header-length grids in three framings, seeded structural mutation of frames, TLS/HTTP streams and database text; all go through the TCP/HTTP/TLS/unified analyzers with and without filters, the three pools, analyze_pcap, the incremental readers/extractors, parsers, hash functions and every FromStr. Any panic (incl. arithmetic overflow), abnormal process death or confirmed non-return is a violation; every 64 hostile frames a probe connection on a reserved 4-tuple must be analysed exactly as by a fresh instance. Held = none observed.",
+  note="Non-termination is decided as bounded progress (20 s, then 60 s alone); memory safety only as far as the executed paths and Miri's reduced workload reach.",
+  design="6 C01"),
  "C13": dict(
   technique="runtime oracle: synthesis of conforming traffic per bundled signature, packet-level analysis, and a p0f-level conformance predicate for earlier entries; dead signatures of the unchanged tree listed item by item as a known finding",
   text="Exploration: each of the 199 TCP and 99 HTTP bundled signatures is instantiated as packets/messages (TCP: IPv4/IPv6, hop counts 0..30, admissible MSS/scale values, windows realising the window form, option bytes realising the layout, header bits realising exactly the quirks; 300 variants per signature quick / 6000 thorough; HTTP: 16 variants over HTTP version, optional headers in/out, exact vs substring values, exact vs embedded software token) and analysed at packet level; the best match must be the signature's own label or the label of an earlier entry the traffic conforms to. Held = every (signature, variant class) either reaches its label or is one of the 299 listed dead items.",
